@@ -104,6 +104,14 @@ def enumerate_cases(tier, shard=0, nshards=1):
                 'n': 4})
     for kind in ('unknown', 'pyerror'):
         out.append({'k': 'faildepth', 'kind': kind})
+    # one Evaluator reused after a FAILED evaluation: once the cause is
+    # gone the same cells must evaluate normally (no stale chain -> no bogus
+    # cycle report)
+    for depth in (1, 2, 3, 4):
+        for cause in ('unknown', 'pyerror', 'cycle'):
+            for via in ('ref', 'range'):
+                out.append({'k': 'reuse', 'depth': depth, 'cause': cause,
+                            'via': via})
     for i, c in enumerate(out):
         if i % nshards == shard:
             yield c
@@ -285,10 +293,61 @@ def run_limited(ev, addr, max_calls, max_depth):
         cls.evaluate = orig
 
 
+def _reuse(case, res):
+    xl = lib.lib()
+    depth, cause, via = case['depth'], case['cause'], case['via']
+    res.nontrivial = True
+    res.labels = ('reuse', cause, via)
+    d = {'Sheet1!B1': 1, 'Sheet1!C1': 10}
+    # chain A1 -> A2 -> ... -> A<depth>; the last one fails while B1 is true
+    for i in range(1, depth):
+        d['Sheet1!A%d' % i] = '=A%d+1' % (i + 1)
+    bad = {'unknown': 'NOSUCHFN(1)', 'pyerror': 'PYBOOM(1)',
+           'cycle': 'A1'}[cause]
+    d['Sheet1!A%d' % depth] = '=IF(B1,%s,7)' % bad
+    d['Sheet1!D1'] = ('=A1+C1' if via == 'ref'
+                      else '=SUM(A1:A%d)+C1' % depth)
+
+    def boom(x):
+        raise ZeroDivisionError('boom')
+    m = lib.compile_dict(d)
+    ns = xl.FUNCTIONS.copy()
+    ns['PYBOOM'] = boom
+    ev = xl.Evaluator(m, namespace=ns)
+    o1, d1, _ = run_limited(ev, 'Sheet1!A1', 10000, depth + 20)
+    if o1 != 'exception':
+        res.fail('reuse:failure-not-reported:%s' % cause, 'an exception',
+                 [o1, str(d1)[:200]], d)
+        return res
+    if cause == 'cycle' and 'cycle' not in d1.lower():
+        res.fail('cycle-exception-without-cycle-report:reuse', 'cycle',
+                 d1[:200], d)
+        return res
+    ev.set_cell_value('Sheet1!B1', 0)
+    a1 = 7 + (depth - 1)
+    want = {'Sheet1!D1': float((a1 if via == 'ref' else sum(
+        7 + k for k in range(depth))) + 10), 'Sheet1!A1': float(a1)}
+    for addr in ('Sheet1!D1', 'Sheet1!A1', 'Sheet1!D1'):
+        o2, d2, _ = run_limited(ev, addr, 10000, depth + 20)
+        if o2 == 'exception':
+            b = 'reuse:bogus-cycle-after-failure' if 'cycle' in d2.lower() \
+                else 'reuse:exception-after-cause-removed'
+            res.fail('%s:%s' % (b, cause), ('N', want[addr]), d2[:300],
+                     [addr, d])
+            return res
+        if o2 != 'value' or d2 != ('N', want[addr]):
+            res.fail('reuse:wrong-value-after-failure:%s' % cause,
+                     ('N', want[addr]), [o2, d2], [addr, d])
+            return res
+    return res
+
+
 def judge(case):
     res = Result()
     if case['k'] == 'faildepth':
         return _faildepth(case, res)
+    if case['k'] == 'reuse':
+        return _reuse(case, res)
     xl = lib.lib()
     cells, consts = case['cells'], case.get('consts', {})
     start = case['eval']
